@@ -143,7 +143,8 @@ func (p *MultilineAction) Do(event *pipeline.Event) pipeline.ActionResult {
 
 			if p.cutOffEventByLimit {
 				offset := sizeAfterAppend - p.maxEventSize
-				p.eventBuf = append(p.eventBuf, logFragment[1:logFragmentLen-1-offset]...)
+				fragment := logFragment[1 : logFragmentLen-1]
+				p.eventBuf = append(p.eventBuf, fragment[:cutEscaped(fragment, len(fragment)-offset)]...)
 				p.cutOffEvent = true
 
 				p.logger.Errorf("event chunk will be cut off due to max_event_size, source_name=%s, namespace=%s, pod=%s", event.SourceName, ns, pod)
@@ -226,6 +227,26 @@ func (p *MultilineAction) Do(event *pipeline.Event) pipeline.ActionResult {
 	p.resetLogBuf()
 
 	return pipeline.ActionPass
+}
+
+// cutEscaped returns the length of the longest prefix of the JSON-escaped string s
+// that is not longer than n and does not end inside an escape sequence.
+func cutEscaped(s string, n int) int {
+	i := 0
+	for i < len(s) {
+		step := 1
+		if s[i] == '\\' {
+			step = 2
+			if i+1 < len(s) && s[i+1] == 'u' {
+				step = 6
+			}
+		}
+		if i+step > n || i+step > len(s) {
+			break
+		}
+		i += step
+	}
+	return i
 }
 
 func (p *MultilineAction) resetLogBuf() {
